@@ -106,4 +106,18 @@ CLAIMED = {
              'of Gregory series, convergence condition, coverage of pi/2, entry 0 = truncated consts::PI, gain^2 * prod(1+4^-i) in [1, 1+2^-31)). NOT proved: the real-analysis step to the 2^-16 / '
              '2^-14 bounds; judged on every run by the mpmath search oracle (worst observed 0.22 of the bound).',
         design_ref='7/C16', note=COMMON_NOTE + ' The numeric error bounds rest on sampled oracle judgements only.', technique='Lean 4 proof (partial) + translator-checked tables + differential correspondence + mpmath search oracle'),
+    'C08': dict(
+        text='PARTIAL (theorems in progress). The full statement C08_statement (model returns the half-even rounding of the literal\'s exact rational value with the exact overflow flag, or a non-overflow '
+             'error, without panic or debug-only check, for every byte string/radix/layout) is in SfxProps/C08.lean; proved so far: specification-side lemma rneDiv_spec. The deciding evidence today is the '
+             'tie: the 539-line function-by-function model of from_str.rs agrees with the code on every request (hook from_str_{i,u}N on all 507 layouts x 4 radices + 16 public entry points, grammar-/tie-directed '
+             'literals up to 200 digits, malformed and non-UTF-8 input, both profiles) and every implementation answer is judged against the exact specification. Two defects found this way were repaired (292489c, 8a5b41d).',
+        design_ref='7/C08', note=COMMON_NOTE + ' Until the model-equals-spec theorems are merged the "holds" verdict for C08 rests on sampled exact-specification judgements.',
+        technique='Lean 4 executable model + exact specification verdict + differential correspondence (proofs in progress)'),
+    'C09': dict(
+        text='PARTIAL (theorems in progress). The function-by-function model of display.rs agrees with the code on every request (hook fmt_dec/fmt_radix2 on all 507 layouts, 2112 literal format-spec combinations, '
+             'precision 0..200, width 0..140, both profiles); every implementation answer is judged by an exact-rational verdict (digits shown = half-even rounding at the requested/shown precision, radix 2^k exact, '
+             'length = max(width, core), padding consists of fill/zeros only) and the default output of every 8-bit value and of sampled wider values is parsed back by the implementation. Theorems over the model '
+             '(totality + flags-only-pad, radix digits exact, decimal digits correctly rounded) are being proved. One defect found this way was repaired (fcf22ad).',
+        design_ref='7/C09', note=COMMON_NOTE + ' Until the theorems are merged the "holds" verdict for C09 rests on sampled exact-verdict judgements.',
+        technique='Lean 4 executable model + exact-rational verdict + differential correspondence (proofs in progress)'),
 }
